@@ -37,3 +37,8 @@ package base
 //@   props C02 C14
 //@   safety
 //@   modifies nothing
+
+//@ func NewEncodingError(column string) (err error)
+//@   props C19
+//@   safety
+//@   ensures err != nil && typeis(err, *EncodingError)
